@@ -7,8 +7,8 @@ package main
 
 import (
 	"fmt"
+	"io"
 	"os"
-	"os/exec"
 	"path/filepath"
 	"sort"
 
@@ -44,8 +44,33 @@ var pointCode = map[string]int{
 }
 
 func copyTree(src, dst string) {
-	if out, err := exec.Command("cp", "-a", src, dst).CombinedOutput(); err != nil {
-		panic(fmt.Sprintf("cp -a %s %s: %v %s", src, dst, err, out))
+	err := filepath.Walk(src, func(p string, info os.FileInfo, err error) error {
+		if err != nil {
+			return err
+		}
+		rel, _ := filepath.Rel(src, p)
+		q := filepath.Join(dst, rel)
+		if info.IsDir() {
+			return os.MkdirAll(q, 0o700)
+		}
+		if !info.Mode().IsRegular() {
+			return nil
+		}
+		in, err := os.Open(p)
+		if err != nil {
+			return err
+		}
+		defer in.Close()
+		out, err := os.OpenFile(q, os.O_CREATE|os.O_WRONLY|os.O_TRUNC, 0o600)
+		if err != nil {
+			return err
+		}
+		defer out.Close()
+		_, err = io.Copy(out, in)
+		return err
+	})
+	if err != nil {
+		panic(fmt.Sprintf("copy %s -> %s: %v", src, dst, err))
 	}
 }
 
@@ -99,10 +124,7 @@ func run(c *Case) []snapx.Problem {
 	c.K = c.KSeed % c.Total
 	c.Point = points[c.K]
 	// ---- restart on the copy ----
-	img := filepath.Join(imgBase, fmt.Sprintf("%d", c.K), filepath.Base(root))
-	if _, err := os.Stat(img); err != nil {
-		img = filepath.Join(imgBase, fmt.Sprintf("%d", c.K))
-	}
+	img := filepath.Join(imgBase, fmt.Sprintf("%d", c.K))
 	bad := map[int]bool{}
 	for _, x := range c.MBad {
 		bad[x] = true
@@ -138,6 +160,7 @@ func run(c *Case) []snapx.Problem {
 	}
 	defer m2.Destroy()
 	m2.Relaxed = true
+	m2.NoRestore = c.NR
 	{
 		touched := map[int]bool{c.Crash.Key: true, c.Crash.Name: true}
 		if c.Crash.L.T >= 0 {
@@ -333,6 +356,10 @@ func main() {
 		term := coqCase(c)
 		id := ctx.Case(term, c, term, nm > 0 || c.View.Temps > 0 || len(c.View.Dirs) != len(c.View.Walk))
 		for _, p := range problems {
+			if p.Sig == snapx.SigTargetUncommitted {
+				ctx.Count("c08finding." + p.Sig) // a C08 finding class, reported by the C08 check
+				continue
+			}
 			if p.Sig != "" {
 				ctx.Count("finding." + p.Sig)
 				ctx.Finding(id, p.Sig, p.What, nil)
